@@ -530,7 +530,12 @@ pub fn run_c07(ctx: &Ctx) {
             frame.push(0);
             let step = if ctx.quick() { 1 } else { 1 };
             for tail in [&[][..], &[0x07][..], &[0x00, 0x07][..]] {
-                // truncation at every position
+                // the intact frame, then truncation at every position
+                {
+                    let mut x = frame.clone();
+                    x.extend_from_slice(tail);
+                    long_inputs.push(x);
+                }
                 for cut in (0..frame.len()).step_by(step) {
                     let mut x = frame[..cut].to_vec();
                     x.extend_from_slice(tail);
